@@ -136,6 +136,12 @@ def struct_package(draw: Any, pkgname: str, want_reexports: bool = True, priv_bi
                         if cand not in top_pool:
                             ename = cand
                     decls.append(gt.enum(("_" if priv else "") + ename, variants))
+                    # enums with a mixed-in data type ('class Color(str, Enum)') or based on IntEnum
+                    shape = draw(st.sampled_from(["plain", "plain", "str", "int", "IntEnum"]))
+                    if shape in {"str", "int"}:
+                        decls[-1]["mixin"] = shape
+                    elif shape == "IntEnum":
+                        decls[-1]["base"] = "IntEnum"
                     top_pool.append(ename)
             if inherit:
                 earlier: list[dict] = []
